@@ -192,6 +192,23 @@ theorem holdsC09_model {store0 : List Nat} {b : Nat} (hnd : store0.Nodup) (hb : 
     simp only [modelTrace, c09Scan, hstep]
     exact ih _ _ hinv' (fun o' ho' => hos o' (List.mem_cons_of_mem _ ho'))
 
+/-- The active-set variant of the predicate (used for generators with RAR) is the same predicate when
+    every point is active. -/
+theorem c09StepA_self (store0 : List Nat) (b : Nat) (st : List Nat × Bool) (r : Rec09) :
+    c09StepA store0 store0 b st r = c09Step store0 b st r := rfl
+
+theorem holdsC09Active_self (store0 : List Nat) (b : Nat) (tr : List Rec09) :
+    holdsC09Active store0 store0 b tr = holdsC09 store0 b tr := by
+  unfold holdsC09Active holdsC09
+  generalize (([] : List Nat), true) = st
+  induction tr generalizing st with
+  | nil => rfl
+  | cons r rs ih =>
+    simp only [c09ScanA, c09Scan, c09StepA_self]
+    cases c09Step store0 b st r with
+    | error e => rfl
+    | ok st' => exact ih st'
+
 /-- non-vacuity: a concrete store and history meet the hypotheses, and the predicate does reject a
     trace that serves a point twice within an epoch. -/
 example : holdsC09 [0, 1, 2, 3] 2
